@@ -46,10 +46,10 @@ def norm(r):
     return ("val", r)
 
 
-def store_summary(b, f):
+def store_summary(b, f, ctx=None):
     out = []
     for x in ALPHA:
-        fra = f.fn_reference().with_args(x=x)
+        fra = f.fn_reference().with_args(x=x, _memento_context_args=ctx)
         mm = b.get_memento(fra.fn_reference_with_arg_hash())
         out.append((x, None if mm is None else mm.invocation_metadata.result_type.name))
     return out
@@ -64,6 +64,10 @@ def case(args):
     out = {"evaluations": 1, "states": 1, "transitions": len(batch), "traces": 1, "violations": [], "outcomes": []}
     try:
         f = fx.b2.partial(7) if prefix == "pos" else fx.b2.partial(p=7) if prefix == "kw" else None
+        cargs = None
+        if prefix == "ctx":  # the batched function carries context arguments: they are part of every element's identity
+            cargs = {"k": 1}
+            f = fx.b2.partial(7).with_context_args(cargs)
 
         def call1(x):
             return (f(x=x) if f is not None else fx.b2(7, x))
@@ -76,7 +80,7 @@ def case(args):
         audit.bodies_reset()
         want = [outcome(call1, x) for x in batch]
         want_bodies = audit.bodies()
-        want_store = store_summary(bt, fx.b2.partial(7))
+        want_store = store_summary(bt, fx.b2.partial(7), cargs)
         # --- subject: one batch --------------------------------------------------------------------
         b0 = mk_backend(kind, os.path.join(top, "subj"))
         use(b0)
@@ -104,7 +108,7 @@ def case(args):
             raised = norm(e)
             got = None
         got_bodies = audit.bodies()
-        got_store = store_summary(b1, fx.b2.partial(7))
+        got_store = store_summary(b1, fx.b2.partial(7), cargs)
         bad = None
         first_exc = next((w for w in want if w[0] == "exc"), None)
         expect_raise = (raise_first or api == "range") and first_exc is not None
@@ -300,7 +304,7 @@ def run(ctx):
     n = 4 if thorough else 3
     ctx.rule = ("batches of length 0..%d over {0,1,2,F,N} with duplicates x every subset of the distinct memoizable elements pre-"
                 "memoized (cached backend: each one resident in the cache or on disk only) x raise_first x prefix {none, positional "
-                "partial, keyword partial} x {call_batch, map_over_range (duplicate-free batches)} x {memory, filesystem, "
+                "partial, keyword partial, positional partial under context arguments} x {call_batch, map_over_range (duplicate-free batches)} x {memory, filesystem, "
                 "filesystem+cache}; oracle = twin store driven by individual calls. distinct = (backend, batch, pre-memoized set)." % n)
     ctx.assumptions += ["an element raising a not-to-be-memoized exception may run once per occurrence (as with individual calls)",
                         "map_over_range raises the first failure (it calls call_batch with the default)"]
@@ -314,7 +318,7 @@ def run(ctx):
                 for assign in itertools.product(states, repeat=len(mem)):
                     pre = [(x, w) for x, w in zip(mem, assign) if w]
                     for raise_first in (True, False):
-                        prefixes = ("pos", "kw", None) if (thorough or L <= 2) else ("pos",)
+                        prefixes = ("pos", "kw", None, "ctx") if (thorough or L <= 2) else ("pos", "ctx")
                         for prefix in prefixes:
                             tasks.append((kind, batch, pre, raise_first, prefix, "batch"))
                     if len(set(batch)) == len(batch) and L > 0:
